@@ -98,6 +98,8 @@ func runC08(c *an.Ctx) {
 	r082(c)
 	r083(c)
 	r084(c)
+	r085(c)
+	c.Min("R08.5", 3)
 	c.Min("R08.1", 5)
 	c.Min("R08.2", 4)
 	c.Min("R08.3", 3)
@@ -402,4 +404,29 @@ func r084(c *an.Ctx) {
 	if n == 0 {
 		c.Note("no predicate literal passed to resource.WithInclude in the module")
 	}
+}
+
+// r085: what the include decision is fed with. Without backpressure the
+// events reach include after mergeChanges, and REMOVE events come from
+// Delete: include(old, new) is only right if (a) merged changes chain the
+// old value of the older change (mergeChanges table, shared with R09.1) and
+// (b) Delete's REMOVE carries the body that was actually removed and Update's
+// event carries the replaced and the committed value (shared with R03.4).
+func r085(c *an.Ctx) {
+	sub := an.NewCtx(c.Prog, c.Property, c.Tier)
+	r091(sub)
+	r034(sub, "R03.4")
+	nOK, nBad := 0, 0
+	for _, o := range sub.Obls {
+		if o.Verdict == an.OK {
+			nOK++
+			continue
+		}
+		nBad++
+		rule := "R08.5"
+		c.Obls = append(c.Obls, an.Obligation{Rule: rule, Key: rule + "|" + o.Construct, Construct: o.Construct, Pos: o.Pos, Verdict: o.Verdict, Detail: "[feeds the include decision] " + o.Detail, Path: o.Path})
+	}
+	c.Ok("R08.5", "mergeChanges table and published old/new values feed include correctly", 0, fmt.Sprintf("%d shared obligations discharged", nOK))
+	c.Ok("R08.5", "shared rule sets evaluated", 0, "R09.1 (merge algebra), R03.4 (published values)")
+	c.Ok("R08.5", "violations forwarded", 0, fmt.Sprintf("%d", nBad))
 }
